@@ -62,7 +62,7 @@ def build_task_results(case):
     for t in case['tasks']:
         env = {'status': TaskStatus[t['status']]}
         if t['hasResult']:
-            env['result'] = [st['StubTest'](name=r['name'], labels=dict(r['labels']), verdict=bool(r['ok'])).evaluate()
+            env['result'] = [st['StubTest'](name=r['name'], labels=dict(r['labels'], **r.get('reserved', {})), verdict=bool(r['ok'])).evaluate()
                              for r in t['results']]
         out.append((t['name'], env))
     return out
@@ -360,7 +360,12 @@ def random_case(rng):
             pres = rng.choice([0.4, 0.7, 1.0])
             for j in range(rng.randint(1, 4)):
                 labels = {l: rng.choice(lvals) for l in lnames if rng.random() < pres} if kind == 'bylabels' else {}
-                results.append(dict(name=rng.choice(['ra', 'rb', 'res%d_%d' % (k, j)]), ok=rng.random() < 0.7, labels=labels))
+                res = dict(name=rng.choice(['ra', 'rb', 'res%d_%d' % (k, j)]), ok=rng.random() < 0.7, labels=labels)
+                if kind == 'bylabels' and rng.random() < 0.12:
+                    # a user label with one of the two names the class reserves (it warns that they will be replaced):
+                    # the result must still be counted once, under its own verdict
+                    res['reserved'] = {rng.choice(['_result', '_result', '_test_name']): rng.choice([0, 1, True, False, 'x'])}
+                results.append(res)
         tasks.append(dict(name=name, status='DONE', hasResult=has, results=results))
     sel = []
     if kind == 'bylabels':
